@@ -148,6 +148,8 @@ Definition lmap (l : leaf A) : leaf B :=
   | LUnflatten wr perm cv => LUnflatten (hv wr) perm (h cv)
   | LProj ws pw i => LProj (hm ws) (hv pw) i
   | LProjAdj ws pw i => LProjAdj (hm ws) (hv pw) i
+  | LProjM ws pw idxs => LProjM (hm ws) (hv pw) idxs
+  | LProjMAdj ws pw idxs => LProjMAdj (hm ws) (hv pw) idxs
   | LPtInner wb pw g ow => LPtInner (hv wb) (hv pw) (hm g) (hv ow)
   | LPtInnerAdj wb pw g ow => LPtInnerAdj (hv wb) (hv pw) (hm g) (hv ow)
   | LResize wd wr rm i o f => LResize (hv wd) (hv wr) rm i o f
@@ -202,19 +204,31 @@ Proof. unfold offset. apply hm_firstn_concat. Qed.
 Lemma h_total (ws : list (list A)) : total (hm ws) = total ws.
 Proof. unfold total. rewrite <- concat_map, map_length. reflexivity. Qed.
 
+Lemma h_blocks_w (ws : list (list A)) idxs :
+  hv (concat (map (fun i => nth i ws []) idxs)) = concat (map (fun i => nth i (hm ws) []) idxs).
+Proof. rewrite concat_map, map_map. f_equal. apply map_ext. intros i. apply hm_nth. Qed.
 Lemma leaf_dom_lmap l : leaf_dom (lmap l) = hv (leaf_dom l).
 Proof.
-  destruct l; cbn [lmap leaf_dom]; rewrite ?map_length, ?h_ones, ?map_app, ?h_pweights; try reflexivity.
-  - cbn. rewrite (h_one HH). reflexivity.
-  - apply (eq_sym (hm_nth _ _)).
-  - f_equal. rewrite !map_map. reflexivity.
+  destruct l; cbn [lmap leaf_dom]; rewrite ?map_length, ?h_ones, ?map_app, ?h_pweights; try reflexivity;
+    first [ apply (eq_sym (hm_nth _ _)) | apply (eq_sym (h_blocks_w _ _))
+          | (f_equal; rewrite !map_map; reflexivity) | (cbn; rewrite (h_one HH); reflexivity) ].
 Qed.
 Lemma leaf_ran_lmap l : leaf_ran (lmap l) = hv (leaf_ran l).
 Proof.
-  destruct l; cbn [lmap leaf_ran]; rewrite ?map_length, ?h_ones, ?map_app, ?h_pweights; try reflexivity.
-  - cbn. rewrite (h_one HH). reflexivity.
-  - apply (eq_sym (hm_nth _ _)).
-  - f_equal. rewrite !map_map. reflexivity.
+  destruct l; cbn [lmap leaf_ran]; rewrite ?map_length, ?h_ones, ?map_app, ?h_pweights; try reflexivity;
+    first [ apply (eq_sym (hm_nth _ _)) | apply (eq_sym (h_blocks_w _ _))
+          | (f_equal; rewrite !map_map; reflexivity) | (cbn; rewrite (h_one HH); reflexivity) ].
+Qed.
+
+Lemma h_block (ws : list (list A)) i x : hv (block ws i x) = block (hm ws) i (hv x).
+Proof. unfold block. rewrite <- hm_nth, map_length, h_offset, skipn_map, firstn_map. reflexivity. Qed.
+Lemma h_set_block (ws : list (list A)) i b out : hv (set_block ws i b out) = set_block (hm ws) i (hv b) (hv out).
+Proof. unfold set_block. rewrite !map_app, <- hm_nth, map_length, h_offset, skipn_map, firstn_map. reflexivity. Qed.
+Lemma h_put_blocks (ws : list (list A)) idxs : forall y out,
+  hv (put_blocks ws idxs y out) = put_blocks (hm ws) idxs (hv y) (hv out).
+Proof.
+  induction idxs as [|i r IH]; intros y out; [reflexivity|]. cbn [put_blocks].
+  rewrite IH, h_set_block, <- hm_nth, map_length, skipn_map, firstn_map. reflexivity.
 Qed.
 
 Theorem eval_leaf_transfer (l : leaf A) (x : list A) : algebraic l -> divs_ok l ->
@@ -235,6 +249,8 @@ Proof.
   - rewrite map_length. apply h_scatter.
   - rewrite <- hm_nth, map_length, h_offset, skipn_map, firstn_map. reflexivity.
   - rewrite !map_app, !h_zeros, h_offset, h_total, <- hm_nth, map_length. reflexivity.
+  - rewrite concat_map, map_map. f_equal. apply map_ext. intros; apply h_block.
+  - rewrite h_put_blocks, h_zeros, h_total. reflexivity.
   - rewrite map_length. apply h_ptinner.
   - apply h_ptinner_adj; exact Hd.
   - reflexivity.
